@@ -415,6 +415,14 @@ func runClientsInterleaved(traces []*Trace, policy string, r *Rng, stats *Stats,
 		}
 	}
 	var live error
+	if !freeRunning {
+		// the clients' own commit / preload workers are scheduled too (job granularity, and inside a job at
+		// element granularity): an encoder worker of one client can be parked in the middle of a slab while
+		// another client encodes, hashes or commits - the process-wide pools are shared by all of them
+		s.ElemStride = []int{0, 1, 3}[r.Sub("elem").Intn(3)]
+		s.Install()
+		defer s.Uninstall()
+	}
 	if freeRunning {
 		var wg sync.WaitGroup
 		for _, t := range tasks {
@@ -425,6 +433,7 @@ func runClientsInterleaved(traces []*Trace, policy string, r *Rng, stats *Stats,
 	} else {
 		live = s.RunBubble(TestingT, tasks)
 		stats.Add("sched.client-decisions", s.Decisions)
+		stats.Add("sched.elem-yields", s.ElemYields)
 	}
 	for _, w := range worlds {
 		stats.Add("events.ledger-io", int(w.Ledger.seq))
